@@ -121,10 +121,33 @@ StackLaws(st, pl) ==
      /\ CodeAt(st, i) >= 0 => NextField(st[i].t, h) = CodeAt(st, i)
 
 -----------------------------------------------------------------------------
+(* stacks at the 16-bit length limits: the largest payload that still fits a length field and the first that   *)
+(* does not (UDP length and IPv6 payload length 65535, IPv4 total length 65535; for UDP over IPv6 the whole     *)
+(* window in which an off-by-header-size jumbo decision would wrap the UDP length)                              *)
+Lim == 65535
+HbhLen == Len(EncTLV(0, CTLV))
+PL == L("Payload", <<>>, FALSE, NoF)
+S4(t) == << L("Ethernet", <<>>, FALSE, NoF), L("IPv4", <<>>, FALSE, NoF), L(t, <<>>, FALSE, NoF), PL >>
+S6(t, h) == << L("Ethernet", <<>>, FALSE, NoF),
+               IF h THEN L("IPv6", CTLV, TRUE, NoF) ELSE L("IPv6", <<>>, FALSE, NoF), L(t, <<>>, FALSE, NoF), PL >>
+BoundStacks ==
+  {<<S6("UDP", FALSE), Lim - 8 + d>> : d \in {0, 1, 2, 4, 8, 9}}
+  \cup {<<S6("UDP", TRUE), Lim - HbhLen - 8 + d>> : d \in {0, 1}}
+  \cup {<<S6("TCP", FALSE), Lim - 20 + d>> : d \in {0, 1}}
+  \cup {<<S6("TCP", TRUE), Lim - HbhLen - 20 + d>> : d \in {0, 1}}
+  \cup {<<S4("UDP"), Lim - 20 - 8 + d>> : d \in {0, 1}}
+  \cup {<<S4("TCP"), Lim - 20 - 20 + d>> : d \in {0, 1}}
+\* the ideal encoders know no jumbograms: they are consulted only for what fits the length fields
+Fits(st, pl) ==
+  pl < 60000 \/
+  LET inner == Len(EncFrom(st, 3, pl)) IN
+  IF st[2].t = "IPv6" THEN inner + (IF st[2].hbh THEN HbhLen ELSE 0) <= Lim ELSE 20 + inner <= Lim
+
 \* neighbour-discovery messages carry options, not a payload
 PayloadsOf(s) == IF IsNDP(s.kind) THEN {0} ELSE Payloads
 Init == \/ \E s \in Shapes : \E p \in PayloadsOf(s) : g = [kind |-> "shape", shape |-> s, pl |-> p, stack |-> <<>>]
         \/ \E t \in LinkLayers : \E v \in Variants(t) : g = [kind |-> "stack", shape |-> <<>>, pl |-> 0, stack |-> <<v>>]
+        \/ \E b \in BoundStacks : g = [kind |-> "stack", shape |-> <<>>, pl |-> b[2], stack |-> b[1]]
 Grow == /\ g.kind = "stack" /\ ~Complete(g.stack) /\ Len(g.stack) < 9
         /\ \E t \in Over(Last(g.stack).t) :
              /\ t = "GRE" => ~HasGRE(g.stack)
@@ -137,7 +160,7 @@ Spec == Init /\ [][Next]_g
 LawsAcceptIdeal ==
   /\ g.kind = "shape" =>
        LayerLaw(AsLayer(g.shape, IdealShape(g.shape, g.pl), g.pl)) = "ok"
-  /\ (g.kind = "stack" /\ Complete(g.stack)) => StackLaws(g.stack, g.pl)
+  /\ (g.kind = "stack" /\ Complete(g.stack) /\ Fits(g.stack, g.pl)) => StackLaws(g.stack, g.pl)
 
 \* a wrong encoding is rejected: the same shape with the list reversed / one byte of padding set (non-vacuity)
 Rev(s) == [i \in 1..Len(s) |-> s[Len(s) + 1 - i]]
